@@ -181,6 +181,10 @@ def check_kernels(prog, rep):
                 elif comparable(got, refs[0]):
                     rep.violate("R1-linear", construct, "genetic values normalise to %s: the intercept row is not [1, 1/q, ..., 1/q] over all q fixed effects" % got.show()[:140], where(f),
                                 refs[0].show()[:140], got.show()[:140])
+                elif "setitem" not in got.show() and ("red(mean, self.beta" in got.show() or "red(sum, self.beta" in got.show()):
+                    # no contrast row is written at all: the fixed effects are collapsed by a plain reduction, which weights the intercept like every other effect
+                    rep.violate("R1-linear", construct, "the fixed-effect term is a plain reduction of beta (%s): the definition is [1, 1/q, ..., 1/q] . beta - the intercept enters with "
+                                "weight 1, not 1/q" % got.show()[:100], where(f), refs[0].show()[:140], got.show()[:140])
                 else:
                     rep.unrec("R1-linear", construct, "intercept written with other operators: %s" % got.show()[:100])
                 good = None
